@@ -11,7 +11,7 @@ export CARGO_NET_OFFLINE=true CARGO_TARGET_DIR=$R/target
 cmd=$(python3 - "$d/meta.json" "$R" <<'PY'
 import json, re, sys
 c = json.load(open(sys.argv[1]))['demo_cmd']
-c = re.sub(r'/tmp/seed2?/C\d\d', sys.argv[2], c)
+c = re.sub(r'/tmp/seed\d?/C\d\d', sys.argv[2], c)
 segs = [x.strip() for x in re.split(r'&&|;', c)]
 keep = [x for x in segs if x and not re.match(r'(cp|mkdir|export|cd|git)\b', x)]
 keep = [re.sub(r'^CARGO_TARGET_DIR=\S+\s+', '', x) for x in keep]
